@@ -31,7 +31,12 @@ SPEC = {
     "level_note": ("trusts the model in vf/include/vf_metrics_model.h and harness/c06_counter_conservation.cc, gcc "
                    "ASan/UBSan/TSan; covers only generated histories (<=200 steps, <=4 instruments, <=6 attribute sets, "
                    "<=4 readers, <=3 views, <=3 meters) and the schedules the perturbed threads produced; per-interval "
-                   "attribution is only checked sequentially"),
+                   "attribution is only checked sequentially. Mutation self-test (scratch worktree, on top of the three "
+                   "proposed fixes): 10/10 breaking edits exit 1 - unreported lists cleared for every collector, Merge "
+                   "replaced by overwrite, delta map swapped outside the lock (TSan + lost updates), cumulative restarted "
+                   "after a collect, LongSum Merge sign slip, negative Add accepted on a monotonic counter, delta start "
+                   "never advanced on the multi-reader path, Record without the lock, second handle given a fresh storage "
+                   "again, delta stashed only for the calling reader"),
     "rule": ("sequential case i = one seeded configuration (1..4 readers each delta/cumulative per instrument type, 1..3 "
              "meters, 0..3 views: rename / allow-list filter / second stream for one instrument, 1..4 instruments "
              "Counter|UpDownCounter x uint64/int64|double, pool of 1..6 attribute maps) and a history of 3..200 steps over "
